@@ -133,11 +133,8 @@ structure Iter where
 
 def Iter.cur (it : Iter) : Option BEntry := it.pos.bind (fun i => it.es[i]?)
 
-/-- Valid(): `currentKey != nil && len(currentKey) > 0` — an entry with the empty key is reported invalid. -/
-def Iter.valid (it : Iter) : Bool :=
-  match it.cur with
-  | some e => !e.key.isEmpty
-  | none => false
+/-- Valid(): `currentKey != nil` — positioned on an entry (the empty key is a legal key). -/
+def Iter.valid (it : Iter) : Bool := it.cur.isSome
 
 def Iter.first (it : Iter) : Iter :=
   { it with pos := if it.es.isEmpty then none else some 0, init := true }
